@@ -41,6 +41,7 @@ type Result struct {
 	Unknowns     int
 	Samples      []string
 	Wall         time.Duration
+	ForkSites    map[string]int
 }
 
 func newResult(s *HarnessSpec) *Result {
@@ -71,6 +72,12 @@ func (r *Result) absorb(x *Explorer) {
 	for f, n := range x.Funcs {
 		r.Funcs[f] += n
 	}
+	if x.ForkSites != nil {
+		if r.ForkSites == nil {
+			r.ForkSites = map[string]int{}
+		}
+		addMap(r.ForkSites, x.ForkSites)
+	}
 	r.Merged += x.merged
 	r.DomDecided += x.DomDecided
 	r.CacheHits += x.CacheHits
@@ -88,6 +95,7 @@ type Pool struct {
 	Deadline   time.Time
 	Stats      *SolverStats
 	CrossKinds []string
+	Profile    bool
 
 	mu      sync.Mutex
 	cond    *sync.Cond
@@ -178,6 +186,9 @@ func (p *Pool) worker() {
 		}
 		x := NewExplorer(p.Prog, j.harness.Name, solver)
 		x.Cross = cross
+		if p.Profile {
+			x.ForkSites = map[string]int{}
+		}
 		x.Params = j.harness.Params
 		x.Deadline = p.Deadline
 		if b, ok := builders[j.harness]; ok {
